@@ -1,6 +1,8 @@
 import Driver.Util
 import KdVerif.Model.Trace
+import KdVerif.Model.TraceWrites
 import KdVerif.Model.TraceDomain
+import KdVerif.Model.Declared
 import KdVerif.Gen.Decoders
 import KdVerif.Gen.Host
 open KdVerif KdVerif.IR KdVerif.Trace
@@ -61,6 +63,46 @@ def cmdTraces : Cmd
     | _, _ => "bad-op"
   | _ => "bad-op"
 
+/-- `tracesw <codes> <record hex>…` : the answer of `traces` followed by the `pids_names` assignments of the run,
+    each tagged with the thread whose event caused it (`Model/TraceWrites.taught ∘ tableWrites`, C05). -/
+def cmdTracesW : Cmd
+  | codes :: recs =>
+    match parseCodes codes, parseRecs recs with
+    | some cs, some es =>
+      let env := mkEnv cs
+      let tw := taught (tableWrites env { pairing := Pairing.PState.empty, tabs := {} } es)
+      let w := if tw.isEmpty then "-" else ",".intercalate (tw.map fun (t, k, v) => s!"{t}:{k}:{hexOfString v}")
+      cmdTraces (codes :: recs) ++ s!" ;tw={w}"
+    | _, _ => "bad-op"
+  | _ => "bad-op"
+
+/-- Thread map entries `tid:pid:namehex;…` in file order (`-` = empty map). -/
+def parseThreadMap (s : String) : Option Declared.ThreadMap :=
+  if s = "-" then some [] else (s.splitOn ";").mapM fun e =>
+    match e.splitOn ":" with
+    | [tid, pid, name] => do
+      let tid ← tid.toNat?
+      let pid ← pid.toNat?
+      let name ← stringOfHex name
+      pure (tid, pid, name)
+    | _ => none
+
+/-- `fmtp <codes> <thread map> <record hex>…` : for every trace `formatted_traces` yields, the timestamp of its
+    first record, its thread and the process text computed from the tables as they are when it is yielded
+    (`Model/Declared.traceProcessColumns`, C14). -/
+def cmdFmtP : Cmd
+  | codes :: tmap :: recs =>
+    match parseCodes codes, parseThreadMap tmap, parseRecs recs with
+    | some cs, some tm, some es =>
+      let env := mkEnv cs
+      let cols := Declared.traceProcessColumns env tm es
+      let err := (run env { pairing := Pairing.PState.empty, tabs := Declared.mapTabs tm } es).2.1
+      let e := match err with | some x => x.name | none => "-"
+      "ok " ++ (if cols.isEmpty then "-" else " ".intercalate (cols.map fun (ts, tid, p) => s!"{ts}:{tid}:{hexOfString p}"))
+        ++ s!" ;err={e}"
+    | _, _, _ => "bad-op"
+  | _ => "bad-op"
+
 /-- `indomain <codes> <record hex>`: C07's `wordsOK` of one record (four words + the own-field side conditions
     of the decoder registered for its code, in the roles its qualifier allows), and its text payload. -/
 def cmdInDomain : Cmd
@@ -72,6 +114,7 @@ def cmdInDomain : Cmd
     | _, _ => "bad-op"
   | _ => "bad-op"
 
-def commands : List (String × Cmd) := [("traces", cmdTraces), ("indomain", cmdInDomain)]
+def commands : List (String × Cmd) :=
+  [("traces", cmdTraces), ("tracesw", cmdTracesW), ("fmtp", cmdFmtP), ("indomain", cmdInDomain)]
 
 end Driver.Trace
